@@ -319,9 +319,11 @@ func dependsOnDeep(v, target ssa.Value, depth int, seen map[ssa.Value]bool) bool
 func init() {
 	binBAI := RuleDef{Name: "BIN-PAIRS", What: "BAI/tabix: BinFor and OverlappingBinsFor use, level by level, the (first bin, shift) pairs of the UCSC scheme ((8^l−1)/7, 29−3l), end−1, inclusive enumeration; TileWidth, 37450, 4680", Floor: 5, Run: ruleBinPairsBAI}
 	binCSI := RuleDef{Name: "BIN-PAIRS-CSI", What: "CSI: the level recurrences of reg2bin and reg2bins, interpreted for seven (minShift, depth) geometries (they do not depend on beg/end – checked), yield the scheme's pairs and agree with each other", Floor: 14, Run: ruleBinPairsCSI}
+	binUnplaced := RuleDef{Name: "BIN-UNPLACED", What: "sam.Record.Bin: the fixed bin 4680 exactly when both Unmapped and MateUnmapped are set, BinFor(Pos, End()) otherwise – evaluated over the flag combinations (added after fifth-round seeds C04-e and C16-e)", Floor: 1, Run: ruleBinUnplaced}
+	binOneWalk := RuleDef{Name: "BIN-ONE-WALK", What: "internal.OverlappingBinsFor: every returned list went through the walk over the level table (no bypassing fast path; added after fifth-round seed C16-f)", Floor: 1, Run: ruleBinOneWalk}
 	register(&PropDef{
 		ID: "C16", Title: "Coordinate arithmetic (End, Len, Bin, CIGAR lengths, bin lists) matches the spec", Level: "other",
-		Rules: []RuleDef{binBAI, binCSI,
+		Rules: []RuleDef{binBAI, binCSI, binUnplaced, binOneWalk,
 			{Name: "TAB-CONSUME", What: "CIGAR consumption table and op letters equal the SAM specification's", Floor: 10, Run: ruleTabConsume},
 			{Name: "DEP-ROLES", What: "Lengths/End/IsValid use the Query resp. Reference column of the consumption table for the right result", Floor: 4, Run: ruleDepRoles},
 			{Name: "BIT-CIGAR", What: "CigarOp.Type/Len unpack length<<4|type (bit domain)", Floor: 2, Run: ruleBitCigar},
@@ -332,7 +334,8 @@ func init() {
 	})
 	register(&PropDef{
 		ID: "C04", Title: "Index queries are complete: every overlapping record lies in a returned chunk", Level: "other",
-		Rules: []RuleDef{binBAI, binCSI,
+		Rules: []RuleDef{binBAI, binCSI, binUnplaced, binOneWalk,
+			{Name: "STATS-ADD", What: "tabix: a name is registered only when the underlying index created its reference (shared with C15; under C04 since a fifth-round seed: an unplaced record with a new name made the written index unreadable)", Floor: 4, Run: ruleStatsAdd},
 			{Name: "ARG-AGREE", What: "Add and Chunks hand the same geometry to the bin function / bin enumeration; BAI and tabix file under BinFor of the record's own interval", Floor: 3, Run: ruleArgAgree},
 			{Name: "COUPLED-TABIX", What: "tabix: refNames append ⇔ nameMap insert", Floor: 1, Run: ruleCoupledTabix},
 			{Name: "SORTED-PRE", What: "every application of a merge strategy is to a chunk list sorted by begin offset", Floor: 5, Run: ruleSortedPre},
